@@ -116,7 +116,8 @@ def _fold_bin(op, a, b):
 class Origins:
     """Flow-insensitive may-origin analysis for one body."""
 
-    def __init__(self, body, facts=None, extra_transparent=(), upvar_terms=None):
+    def __init__(self, body, facts=None, extra_transparent=(), upvar_terms=None, only_blocks=None):
+        """only_blocks: restrict the definitions considered to those blocks (the provenance along one CFG path)."""
         self.b = body
         self.facts = facts
         self.defs = defaultdict(list)  # local -> [(kind, payload, block)]
@@ -124,6 +125,8 @@ class Origins:
         self.upvar_terms = upvar_terms or {}
         self._memo = {}
         for blk in sorted(body.reachable()):
+            if only_blocks is not None and blk not in only_blocks:
+                continue
             bl = body.blocks[blk]
             for s in bl["stmts"]:
                 if s["k"] == "assign":
@@ -631,7 +634,14 @@ class Branches:
         names = {v: n for v, n in rv["variants"]}
         edges = {}
         for v, tgt in t["targets"]:
-            edges[names.get(v, f"#{v}")] = tgt
+            nm = names.get(v)
+            if nm is None and v < 0:
+                # negative discriminants (Ordering::Less = -1) are listed by their unsigned bit pattern in the variant table
+                for bits in (8, 16, 32, 64, 128):
+                    nm = names.get(v + (1 << bits))
+                    if nm is not None:
+                        break
+            edges[nm if nm is not None else f"#{v}"] = tgt
         return {
             "adt": rv["adt"],
             "edges": edges,
@@ -830,3 +840,27 @@ def closure_capture_origins(lib, parent, closure_def):
         if st["k"] == "assign" and st["rv"]["k"] == "agg" and st["rv"].get("ak") == "closure" and st["rv"].get("def") == closure_def:
             return [o.of_operand(x) for x in st["rv"]["ops"]]
     return None
+
+
+def success_edge(body, o, br, scrutinee_ok):
+    """The CFG edge taken when a fallible call succeeded — `call(..)?` (Try::branch then the Continue edge) or a hand-written
+    `match call(..) { Ok(..) => .., Err(e) => .. }` / `if let Ok(..)` (the Ok edge).  scrutinee_ok(terms) selects the call by
+    the provenance of the tested value.  Returns (switch block, success target, failure target) or None."""
+    for bb, t in body.calls():
+        if t["callee"] == "std::ops::Try::branch":
+            terms = o.of_operand(t["args"][0])
+            if terms and scrutinee_ok(terms) and t["t"] is not None:
+                ve = br.variant_edges(t["t"])
+                if ve and "Continue" in ve["edges"]:
+                    return t["t"], ve["edges"]["Continue"], ve["edges"].get("Break", ve["otherwise"])
+    best = None
+    for sb, sw in br.switches():
+        ve = br.variant_edges(sb)
+        if ve and ve["adt"] == "std::result::Result" and ve["scrutinee"] and scrutinee_ok(ve["scrutinee"]):
+            ok_t = ve["edges"].get("Ok", ve["otherwise"])
+            err_t = ve["edges"].get("Err", ve["otherwise"])
+            if ok_t != err_t:
+                depth = len(body.dominators().get(sb, ()))
+                if best is None or depth < best[0]:
+                    best = (depth, sb, ok_t, err_t)
+    return (best[1], best[2], best[3]) if best else None
